@@ -141,11 +141,32 @@ theorem operandExpr_nonNeg {h : Heap ℝ} (hh : NonNeg h) (slot : Nat) (x : Oper
       · simp only [Option.some.injEq, Prod.mk.injEq] at hx
         rw [← hx.2]; exact hh
 
+/-- well-formed requests: the histogram edges handed to the mode strategy are `numpy.histogram`'s,
+    the last edge not below the first (every other request is well-formed as it stands) -/
+def WF : Op ℝ → Prop
+  | .mcMode _ _ edges _ => edges.getD 0 0 ≤ edges.getD (edges.length - 1) 0
+  | _ => True
+
+/-- the mode strategy's uncertainty is `k` bin widths, `k` a natural number, the width
+    `(last edge − first edge)/len ≥ 0` (the statement of `C16_error_nonneg`, proved here from the
+    model so that C14 does not depend on C16's module) -/
+theorem mode_error_nonneg (n : List Nat) (edges : List ℝ) (c : ℝ)
+    (h : edges.getD 0 0 ≤ edges.getD (edges.length - 1) 0) :
+    0 ≤ (ModeWalk.modeResult n edges c).2 := by
+  have e : (ModeWalk.modeResult n edges c).2 = ((ModeWalk.modeWalk n c).2 : ℝ) *
+      ((edges.getD (edges.length - 1) 0 - edges.getD 0 0) / (n.length : ℝ)) := by
+    simp [ModeWalk.modeResult]
+  rw [e]
+  exact mul_nonneg (Nat.cast_nonneg _) (div_nonneg (by linarith) (Nat.cast_nonneg _))
+
 /-- **C14 (invariant, one step).** Every creation and mutation path — constructors of single and
     repeated measurements, arrays and data sets, re-wrapping of existing arrays, the three setters
-    on measurements and on calculated quantities, the selectors, arithmetic — leaves every
-    uncertainty `≥ 0`, whether the request is accepted or rejected. -/
-theorem C14_inv_step (h : Heap ℝ) (op : Op ℝ) (hh : NonNeg h) : NonNeg (step h op).1 := by
+    on measurements and on calculated quantities, the selectors, arithmetic, and the Monte Carlo
+    results of a calculated quantity under each strategy (mean / n−1 standard deviation of the
+    samples, mode walk, custom pair) — leaves every uncertainty `≥ 0`, whether the request is
+    accepted or rejected. -/
+theorem C14_inv_step (h : Heap ℝ) (op : Op ℝ) (hwf : WF op) (hh : NonNeg h) :
+    NonNeg (step h op).1 := by
   cases op with
   | mkMeasurement v e =>
     show NonNeg (mkMeasurement h v e).1
@@ -306,17 +327,50 @@ theorem C14_inv_step (h : Heap ℝ) (op : Op ℝ) (hh : NonNeg h) : NonNeg (step
       simp only [List.mem_singleton] at hq
       subst hq
       exact derive_nonneg _ _
+  | mcMeanStd i smp =>
+    show NonNeg (mcMeanStd h i smp).1
+    unfold mcMeanStd
+    split
+    · exact hh
+    · split
+      · exact nonNeg_set hh _ _ (std1_nonneg _)
+      · exact hh
+  | mcMode i cnt edges c =>
+    show NonNeg (mcMode h i cnt edges c).1
+    unfold mcMode
+    split
+    · exact hh
+    · split
+      · dsimp only
+        split
+        · exact hh
+        · exact nonNeg_set hh _ _ (mode_error_nonneg cnt edges c hwf)
+      · exact hh
+  | mcCustom i v e =>
+    show NonNeg (mcCustom h i v e).1
+    unfold mcCustom
+    split
+    · exact hh
+    · split
+      · split
+        · exact hh
+        · rename_i hn
+          exact nonNeg_set hh _ _ (neg?_false (by simpa using hn))
+      · exact hh
 
 /-- **C14 (invariant, all histories).** By induction over the request list. -/
-theorem C14_inv_run (h : Heap ℝ) (ops : List (Op ℝ)) (hh : NonNeg h) : NonNeg (exec h ops) := by
+theorem C14_inv_run (h : Heap ℝ) (ops : List (Op ℝ)) (hwf : ∀ op ∈ ops, WF op) (hh : NonNeg h) :
+    NonNeg (exec h ops) := by
   unfold exec
   induction ops generalizing h with
   | nil => exact hh
-  | cons op rest ih => exact ih _ (C14_inv_step h op hh)
+  | cons op rest ih =>
+    exact ih _ (fun o ho => hwf o (List.mem_cons_of_mem _ ho))
+      (C14_inv_step h op (hwf op (List.mem_cons_self ..)) hh)
 
 /-- **C14.** After any finite history from an empty session every uncertainty is `≥ 0`. -/
-theorem C14_inv_all (ops : List (Op ℝ)) : NonNeg (exec [] ops) :=
-  C14_inv_run [] ops (by intro q hq; cases hq)
+theorem C14_inv_all (ops : List (Op ℝ)) (hwf : ∀ op ∈ ops, WF op) : NonNeg (exec [] ops) :=
+  C14_inv_run [] ops hwf (by intro q hq; cases hq)
 
 /-! ### rejected requests change nothing -/
 
@@ -410,6 +464,28 @@ theorem C14_reject_unchanged (h : Heap ℝ) (op : Op ℝ) (hr : (step h op).2 = 
     show (unary h o a).2 = .reject → (unary h o a).1 = h
     unfold unary
     split <;> rej
+  | mcMeanStd i smp =>
+    show (mcMeanStd h i smp).2 = .reject → (mcMeanStd h i smp).1 = h
+    unfold mcMeanStd
+    split
+    · rej
+    · split <;> rej
+  | mcMode i cnt edges c =>
+    show (mcMode h i cnt edges c).2 = .reject → (mcMode h i cnt edges c).1 = h
+    unfold mcMode
+    split
+    · rej
+    · split
+      · dsimp only; split <;> rej
+      · rej
+  | mcCustom i v e =>
+    show (mcCustom h i v e).2 = .reject → (mcCustom h i v e).1 = h
+    unfold mcCustom
+    split
+    · rej
+    · split
+      · split <;> rej
+      · rej
 
 /-! ### what is rejected, what is accepted -/
 
@@ -482,6 +558,62 @@ theorem C14_rel (h : Heap ℝ) (i : Nat) (q : Qty ℝ) (r : ℝ) (hq : h[i]? = s
   simp only [hq, hn, Bool.false_eq_true, if_false]
   cases hk : q.kind <;> exact ⟨_, rfl, by simp [mul_comm], rfl⟩
 
+/-- **C14 (Monte Carlo results).** For a calculated quantity `q` at `i`:
+    * default strategy: accepted, uncertainty = n−1 standard deviation of the samples, `≥ 0`;
+    * mode strategy at a confidence in [0, 1]: accepted, uncertainty = the mode walk's `k` bin
+      widths, `≥ 0` for ordered edges; a confidence outside [0, 1] is rejected;
+    * custom pair: `e ≥ 0` accepted and read back verbatim, `e < 0` rejected;
+    and every rejection leaves the heap as it was (`C14_reject_unchanged`). -/
+theorem C14_mc (h : Heap ℝ) (i : Nat) (q : Qty ℝ) (hq : h[i]? = some q) (hk : q.kind = .derived)
+    (smp : List ℝ) (cnt : List Nat) (edges : List ℝ) (c v e : ℝ) :
+    (∃ q', step h (.mcMeanStd i smp) = (h.set i q', .ok) ∧ q'.error = Stats.std1 smp ∧ 0 ≤ q'.error) ∧
+    (0 ≤ c → c ≤ 1 → edges.getD 0 0 ≤ edges.getD (edges.length - 1) 0 →
+      ∃ q', step h (.mcMode i cnt edges c) = (h.set i q', .ok) ∧
+        q'.error = (ModeWalk.modeResult cnt edges c).2 ∧ 0 ≤ q'.error) ∧
+    ((c < 0 ∨ 1 < c) → step h (.mcMode i cnt edges c) = (h, .reject)) ∧
+    (0 ≤ e → ∃ q', step h (.mcCustom i v e) = (h.set i q', .ok) ∧ q'.error = e ∧ q'.value = v) ∧
+    (e < 0 → step h (.mcCustom i v e) = (h, .reject)) := by
+  refine ⟨?_, ?_, ?_, ?_, ?_⟩
+  · refine ⟨{ q with value := Stats.mean smp, error := Stats.std1 smp }, ?_, rfl, std1_nonneg smp⟩
+    show mcMeanStd h i smp = _
+    simp [mcMeanStd, hq, hk]
+  · intro h0 h1 hed
+    have hb : badConf c = false := by
+      simp [badConf, Uncert.zero, not_lt.mpr h0, not_lt.mpr h1]
+    refine ⟨{ q with value := (ModeWalk.modeResult cnt edges c).1,
+                     error := (ModeWalk.modeResult cnt edges c).2 }, ?_, rfl,
+      mode_error_nonneg cnt edges c hed⟩
+    show mcMode h i cnt edges c = _
+    simp [mcMode, hq, hk, hb]
+  · intro hc
+    have hb : badConf c = true := by
+      rcases hc with hc | hc <;> simp [badConf, Uncert.zero, hc]
+    show mcMode h i cnt edges c = _
+    simp [mcMode, hq, hk, hb]
+  · intro he
+    have hn : neg? e = false := by
+      unfold neg? Uncert.zero; simpa using he
+    refine ⟨{ q with value := v, error := e }, ?_, rfl, rfl⟩
+    show mcCustom h i v e = _
+    simp [mcCustom, hq, hk, hn]
+  · intro he
+    show mcCustom h i v e = _
+    simp [mcCustom, hq, hk, neg?_true he]
+
+/-- a measurement (single or repeated) has no Monte Carlo settings: the three requests are
+    rejected and change nothing -/
+theorem C14_mc_measurement (h : Heap ℝ) (i : Nat) (q : Qty ℝ) (hq : h[i]? = some q)
+    (hk : q.kind ≠ .derived) (smp : List ℝ) (cnt : List Nat) (edges : List ℝ) (c v e : ℝ) :
+    step h (.mcMeanStd i smp) = (h, .reject) ∧ step h (.mcMode i cnt edges c) = (h, .reject) ∧
+    step h (.mcCustom i v e) = (h, .reject) := by
+  refine ⟨?_, ?_, ?_⟩
+  · show mcMeanStd h i smp = _
+    cases hkk : q.kind <;> simp_all [mcMeanStd]
+  · show mcMode h i cnt edges c = _
+    cases hkk : q.kind <;> simp_all [mcMode]
+  · show mcCustom h i v e = _
+    cases hkk : q.kind <;> simp_all [mcCustom]
+
 /-- statistics chosen by the selectors are non-negative: sample standard deviation, error on the
     mean, propagated error -/
 theorem C14_statistics_nonneg (xs es : List ℝ) :
@@ -499,12 +631,36 @@ example :
   intro h1
   have hneg := (C14_negative_rejected h1 5 (-1 / 2) 0 .add (by norm_num)).1
   exact ⟨hneg, C14_reject_unchanged _ _ hneg,
-    C14_inv_step _ _ (by intro q hq; cases hq)⟩
+    C14_inv_step _ _ trivial (by intro q hq; cases hq)⟩
 
 example : ∃ q', step [single (-5 : ℝ) (1 / 2)] (.setRelError 0 (1 / 10)) =
     ([single (-5 : ℝ) (1 / 2)].set 0 q', .ok) ∧ q'.error = 1 / 10 * |(-5 : ℝ)| :=
   let ⟨q', h1, h2, _⟩ := C14_rel [single (-5 : ℝ) (1 / 2)] 0 (single (-5) (1 / 2)) (1 / 10) rfl
     (by norm_num)
   ⟨q', h1, h2⟩
+
+/-- a calculated quantity `x·x` with its Monte Carlo results: the mode strategy on a histogram
+    whose fullest bin is the FIRST one (counts 5, 3, 1, 1; edges 0 … 4; confidence 9/10) reports a
+    non-negative uncertainty; a custom pair with uncertainty −1 is rejected and changes nothing -/
+example :
+    let h0 : Heap ℝ := [single 0 1, ⟨.derived, 0, 0, [], [], .bin .mul (.var 0) (.var 0)⟩]
+    let h1 := (step h0 (.mcMode 1 [5, 3, 1, 1] [0, 1, 2, 3, 4] (9 / 10))).1
+    NonNeg h1 ∧ step h1 (.mcCustom 1 2 (-1)) = (h1, .reject) := by
+  intro h0 h1
+  have n0 : NonNeg h0 := by
+    intro q hq
+    simp only [h0, List.mem_cons, List.not_mem_nil, or_false] at hq
+    rcases hq with rfl | rfl <;> simp [single]
+  have n1 : NonNeg h1 := C14_inv_step h0 _ (by simp [WF]) n0
+  refine ⟨n1, ?_⟩
+  have hr : (step h1 (.mcCustom 1 2 (-1))).2 = .reject := by
+    show (mcCustom h1 1 2 (-1)).2 = _
+    unfold mcCustom
+    split
+    · rfl
+    · split
+      · simp [neg?_true (show (-1 : ℝ) < 0 by norm_num)]
+      · rfl
+  exact Prod.ext (C14_reject_unchanged _ _ hr) hr
 
 end QExPy
